@@ -741,10 +741,15 @@ def model_check(items, name='C05'):
         rows.append(t)
         idx.append(i)
     bad = []
-    CH = 250
-    for off in range(0, len(rows), CH):
+    CH = 150
+
+    def one(off):
         body = 'Definition cases := [\n' + ';\n'.join(rows[off:off + CH]) + '\n].\nEval vm_compute in failing 0 cases.\n'
-        rc, out, err = run_cases(f'{name}_{off // CH}', HEADER, body)
+        return off, run_cases(f'{name}_{off // CH}', HEADER, body)
+    from concurrent.futures import ThreadPoolExecutor
+    with ThreadPoolExecutor(max_workers=4) as ex:          # <= 4 coqc at a time
+        outs = list(ex.map(one, range(0, len(rows), CH)))
+    for off, (rc, out, err) in outs:
         m = re.search(r'=\s*\[(.*?)\]\s*:\s*list nat', out, re.S)
         if rc != 0 or not m:
             return None, idx, (out + err)[-1500:]
